@@ -394,7 +394,8 @@ class Stubs:
             j = z3.Int('j!rev')
             def snap_rev(e, n=n, a=heap_arr):
                 e.last_snapshot_kind = 'seq'
-                return n, z3.Lambda([j], z3.Select(a, n - 1 - j))
+                from .pymodel import def_array
+                return n, def_array(e, lambda jj: z3.Select(a, n - 1 - jj), at=(z3.IntVal(0),))
             d.snap = snap_rev
             ex.iter_descs[it.get_id()] = d
             return it
@@ -966,7 +967,7 @@ class Stubs:
         k = self.model.num_value_int(i)
         pos = z3.If(k < 0, z3.If(k + n < 0, 0, k + n), z3.If(k > n, n, k))
         from .pymodel import shifted_insert
-        ex.list_write('insert', r, n + 1, shifted_insert(ex.heap.lelts(r), pos, v), stored=(v,))
+        ex.list_write('insert', r, n + 1, shifted_insert(ex, ex.heap.lelts(r), pos, v), stored=(v,))
         ex.last_insert = (r, pos, v)
         return L.NoneV
 
@@ -986,7 +987,7 @@ class Stubs:
             ex.raise_('IndexError', 'pop from empty list / index out of range')
         x = ex.known(ex.heap.lelt(r, j))
         ex.assume_elem(x)
-        ex.list_write('pop', r, n - 1, shifted_delete(ex.heap.lelts(r), j))
+        ex.list_write('pop', r, n - 1, shifted_delete(ex, ex.heap.lelts(r), j))
         ex.last_pop = (r, j, x)
         return x
 
@@ -1000,7 +1001,7 @@ class Stubs:
             ex.raise_('ValueError', 'list.remove(x): x not in list')
         j = ex.fresh_int('pos')
         ex.assume(z3.And(j >= 0, j < n))
-        ex.list_write('remove', r, n - 1, shifted_delete(ex.heap.lelts(r), j))
+        ex.list_write('remove', r, n - 1, shifted_delete(ex, ex.heap.lelts(r), j))
         return L.NoneV
 
     def list_index(self, ex, recv, r, args, kwargs):
@@ -1033,7 +1034,9 @@ class Stubs:
     def list_reverse(self, ex, recv, r, args, kwargs):
         n = ex.heap.llen(r)
         j = z3.Int('j!rev')
-        ex.list_write('reverse', r, n, z3.Lambda([j], z3.Select(ex.heap.lelts(r), n - 1 - j)))
+        from .pymodel import def_array
+        old = ex.heap.lelts(r)
+        ex.list_write('reverse', r, n, def_array(ex, lambda jj: z3.Select(old, n - 1 - jj)))
         return L.NoneV
 
     def list_extend(self, ex, recv, r, args, kwargs):
@@ -1041,7 +1044,7 @@ class Stubs:
         v = ex.to_val(args[0])
         m, src = self.model.iter_snapshot(ex, v)
         n = ex.heap.llen(r)
-        ex.list_write('extend', r, n + m, concat_arrays(ex.heap.lelts(r), n, src))
+        ex.list_write('extend', r, n + m, concat_arrays(ex, ex.heap.lelts(r), n, src))
         return L.NoneV
 
     def list_copy(self, ex, recv, r, args, kwargs):
